@@ -1,6 +1,6 @@
 // C19: fault enumeration over the pluggable MemoryManager of XalanTransformer.
 //
-//   xv_c19 <cases.ndjson> <outdir> <jobs> <mode>      mode = "inited" | "raw"
+//   xv_c19 <cases.ndjson> <outdir> <jobs> <mode> <datadir>      mode = "inited" | "raw"
 //
 // cases.ndjson: one line per execution: {"scenario":name,"k":failing request (0 = none),"steps":[...]}
 // Every execution runs in a forked CHILD (std::terminate / SIGSEGV / sanitizer abort of one execution must not
@@ -43,6 +43,7 @@ using namespace xv;
 
 // ------------------------------------------------------------------------------- event output
 static int g_fd = 1;
+static std::string g_data = ".";      // directory of the input files named by the cases
 
 static void emit(const char* s, size_t n) {
     while (n) { ssize_t w = ::write(g_fd, s, n); if (w <= 0) return; s += w; n -= (size_t)w; }
@@ -268,7 +269,7 @@ struct Child {
 
     XSLTInputSource* input(const J& spec, std::vector<std::unique_ptr<XSLTInputSource>>& keep) {
         // input sources are caller-side objects: they live on the default manager, not on manager 1
-        if (spec.has("file")) keep.emplace_back(new XSLTInputSource(spec.str("file").c_str()));
+        if (spec.has("file")) keep.emplace_back(new XSLTInputSource((g_data + "/" + spec.str("file")).c_str()));
         else { streams.emplace_back(new std::istringstream(spec.str("text"))); keep.emplace_back(new XSLTInputSource(streams.back().get())); }
         return keep.back().get();
     }
@@ -303,7 +304,7 @@ struct Child {
             const std::string out = st.str("out", "stream");
             std::ostringstream os; OutBuf ob;
             std::unique_ptr<XSLTResultTarget> target;
-            if (out == "file") target.reset(new XSLTResultTarget(st.str("outfile").c_str()));
+            if (out == "file") target.reset(new XSLTResultTarget((g_data + "/" + st.str("outfile") + "." + std::to_string((long)getpid())).c_str()));
             else if (out == "stream") target.reset(new XSLTResultTarget(os));
             call(api, [&]() -> int {
                 if (out == "callback") {
@@ -398,7 +399,8 @@ static void runChild(const J& c, bool parentInited, const char* flavour) {
 
 // ----------------------------------------------------------------------------------- the parent
 int main(int argc, char** argv) {
-    if (argc < 5) { fprintf(stderr, "usage: %s cases.ndjson outdir jobs inited|raw\n", argv[0]); return 2; }
+    if (argc < 6) { fprintf(stderr, "usage: %s cases.ndjson outdir jobs inited|raw datadir\n", argv[0]); return 2; }
+    g_data = argv[5];
     const std::string outdir = argv[2];
     const int jobs = std::max(1, atoi(argv[3]));
     const bool inited = std::string(argv[4]) == "inited";
@@ -463,5 +465,7 @@ int main(int argc, char** argv) {
         if (initMgr.outstanding() != 0) fprintf(stderr, "note: %zu blocks of the init manager outstanding after terminate()\n", initMgr.outstanding());
     }
     printf("%zu\n", finished);
-    return 0;
+    fflush(nullptr);
+    // leave without running the library's static destructors: in raw mode Xalan was never initialised in this process
+    _exit(0);
 }
